@@ -1056,7 +1056,7 @@ def gen_multi_cases(thorough):
     pairs = [["mlib", "mlib"], ["mlib", "clib"], ["clib", "clib"]]
     for types in pairs:
         for buf in MULTI_BUFS:
-            for counts in ([2, 2], [2, 3], [3, 3]):
+            for counts in ([2, 2], [2, 3], [3, 3]) if thorough else ([2, 2], [3, 3]):
                 for order in _interleavings(counts):
                     for enter in ([0, 1], [1, 0]):
                         for keys in ("distinct", "same"):
@@ -1147,7 +1147,7 @@ def _multi_one(libs, A, mc, seed):
                 for k in ks:
                     g = snapshot(hr[k])
                     ntr += 1
-                    outs.append(digest(g))
+                    outs.append((li, k))
                     if compare(stored[li][k][0], g, mc["encs"][li], conf_source=stored[li][k][1]):
                         return "record-corrupted", ("obj", li), ntr
         return None, ("ok", tuple(outs)), ntr
@@ -1167,10 +1167,11 @@ def eval_multi(ctx, A, mc, seed, libs=None):
     ctx.outcome(("multi", out))
     ctx.nontrivial(("multi", "+".join(mc["types"]), mc["buf"], tuple(mc["order"]), tuple(mc["enter"]), mc["keys"], mc["how"], tuple(mc["encs"])))
     if sym:
-        encs = "" if set(mc["encs"]) == {"v2"} else "|enc=" + "+".join(mc["encs"])
+        # which of put / session exit / key listing / record shows the damage depends on the record
+        # sizes relative to the buffer: one symptom class
         ctx.violation(
-            f"multilib|{'+'.join(mc['types'])}{encs}|buf={mc['buf']}|{mc['how']}|{sym}",
-            f"{len(mc['types'])} library objects ({mc['how']}), puts in library order {mc['order']}, sessions entered in order {mc['enter']}, keys {mc['keys']}, bufsize {mc['buf']}: {sym}",
+            f"multilib|{'+'.join(mc['types'])}|buf={mc['buf']}|{mc['how']}|library-does-not-hold-what-was-stored-in-it",
+            f"{len(mc['types'])} library objects ({mc['how']}, encodings {mc['encs']}), puts in library order {mc['order']}, sessions entered in order {mc['enter']}, keys {mc['keys']}, bufsize {mc['buf']}: {sym}",
             dict(mc, mode="multilib"),
             repro=multi_repro(mc),
         )
@@ -1218,7 +1219,7 @@ GEN_DISTURB = ["G0", "G1", "G2", "Q", "NF", "N1", "V1", "P"]
 
 def gen_gen_cases(thorough):
     out = []
-    dis = [None] + GEN_DISTURB
+    dis = [None] + (GEN_DISTURB if thorough else [x for x in GEN_DISTURB if x != "G1"])
     for lib in ("mlib", "clib"):
         for enc in ("v2", "v1") if thorough else ("v2",):
             for sizes in ("equal", "different"):
@@ -1230,7 +1231,7 @@ def gen_gen_cases(thorough):
                             if d.count("P") > 1:
                                 continue
                             nd = sum(1 for x in d if x)
-                            if not thorough and nd > 2:
+                            if not thorough and nd > (1 if kind == "keys" else 2):
                                 continue
                             out.append({"lib": lib, "enc": enc, "sizes": sizes, "session": session, "kind": kind, "d": list(d)})
     out.sort(key=lambda c: sum(1 for x in c["d"] if x))
@@ -1288,7 +1289,7 @@ def _gen_one(libs, A, gc, seed):
         put_done = False
         with cm:
             g0 = hs.items() if kind == "items" else (hs.values() if kind == "values" else iter(hs))
-            g1 = v1 = None
+            nested = {"N1": {"gen": None, "dead": False, "before_put": False}, "V1": {"gen": None, "dead": False, "before_put": False}}
             seen_keys, seen_objs = [], []
             ended = False
             for gap in range(3):
@@ -1306,17 +1307,28 @@ def _gen_one(libs, A, gc, seed):
                         inner = dict(hs.items())
                         if sorted(inner) != sorted(stored) or not all(good_pair(k, v) for k, v in inner.items()):
                             return "nested-pass:wrong-pair", cls(), ("nf",), ntr
-                    elif d == "N1":
-                        if g1 is None:
-                            g1 = hs.items()
-                        k, v = next(g1)
-                        if not good_pair(k, v):
-                            return "nested-pass:wrong-pair", cls(), ("n1",), ntr
-                    elif d == "V1":
-                        if v1 is None:
-                            v1 = hs.values()
-                        if which(next(v1)) is None:
-                            return "nested-pass:wrong-pair", cls(), ("v1",), ntr
+                    elif d in ("N1", "V1"):
+                        # a second pass; like the main one it may legitimately end with RuntimeError
+                        # when a record was inserted after it had been started
+                        slot = nested[d]
+                        if slot["dead"]:
+                            pass
+                        else:
+                            if slot["gen"] is None:
+                                slot["gen"] = hs.items() if d == "N1" else hs.values()
+                                slot["before_put"] = not put_done
+                            try:
+                                item = next(slot["gen"])
+                            except RuntimeError:
+                                if put_done and slot["before_put"]:
+                                    slot["dead"] = True
+                                    item = None
+                                else:
+                                    raise
+                            if item is not None:
+                                good = good_pair(*item) if d == "N1" else which(item) is not None
+                                if not good:
+                                    return "nested-pass:wrong-pair", cls(), (d,), ntr
                     elif d == "P":
                         hs["key3"] = objs[3]
                         stored["key3"] = 3
